@@ -1,7 +1,6 @@
 package c17
 
-// Local float generators.  rapid's Float64Range (and therefore gen.F / gen.LogF)
-// is heavily biased: measured on 10 000 draws of F(-3, 3), 88% have magnitude
+// Local float generators.  rapid's Float64Range is heavily biased: measured on 10 000 draws of F(-3, 3), 88% have magnitude
 // below 0.1 (most around 1e-8..1e-5), and 60% of LogF(0.3, 3) fall in [1, 1.25).
 // That bias is valuable for finding degenerate inputs but leaves the generic part
 // of every domain almost unvisited, so values here are uniform four times out of
@@ -14,7 +13,6 @@ import (
 	"math/bits"
 
 	"pgregory.net/rapid"
-	"verifharness/gen"
 	"verifharness/kit"
 )
 
@@ -35,7 +33,7 @@ func unit(t *rapid.T, label string) float64 {
 // F draws from [lo, hi].
 func F(t *rapid.T, lo, hi float64, label string) float64 {
 	if rapid.IntRange(0, 4).Draw(t, label+".biased") == 0 {
-		return gen.F(t, lo, hi, label)
+		return rapid.Float64Range(lo, hi).Draw(t, label)
 	}
 	return lo + (hi-lo)*unit(t, label)
 }
@@ -43,7 +41,7 @@ func F(t *rapid.T, lo, hi float64, label string) float64 {
 // LogF draws from [lo, hi] with a uniform logarithm.
 func LogF(t *rapid.T, lo, hi float64, label string) float64 {
 	if rapid.IntRange(0, 4).Draw(t, label+".biased") == 0 {
-		return gen.LogF(t, lo, hi, label)
+		return math.Min(hi, math.Max(lo, math.Exp(rapid.Float64Range(math.Log(lo), math.Log(hi)).Draw(t, label))))
 	}
 	return math.Min(hi, math.Max(lo, math.Exp(math.Log(lo)+(math.Log(hi)-math.Log(lo))*unit(t, label))))
 }
